@@ -80,8 +80,10 @@ void StringBox::add_power(StringBox &other)
     for (std::string &line : lines_) {
         line.append(std::string(other.width_, ' '));
     }
-    for (std::string &line : other.lines_) {
-        lines_.insert(lines_.begin(), std::string(width_, ' ') + line);
+    // put the lines of the exponent on top, keeping their order
+    for (auto line = other.lines_.rbegin(); line != other.lines_.rend();
+         ++line) {
+        lines_.insert(lines_.begin(), std::string(width_, ' ') + *line);
     }
     width_ += other.width_;
 }
